@@ -92,10 +92,14 @@ def const_accesses(tokens):
     return acc
 
 
-def misaligned_overlap(plain):
-    """does the block contain two constant-range memory accesses that overlap without coinciding and that are
-    not word-aligned with each other (offsets differing by a non-multiple of 32, or a byte store inside a word)?"""
+def misaligned_overlap(plain, min_accesses=4):
+    """does the block contain at least min_accesses constant-range memory accesses, two of which overlap without
+    coinciding and are not word-aligned with each other (offsets differing by a non-multiple of 32, or a byte store
+    inside a word)?  The unchanged tree handles every combination of up to three such accesses of the generator
+    vocabularies correctly (enumerated exhaustively), so the known finding only covers longer combinations."""
     acc = const_accesses(gen.tokens(plain))
+    if len(acc) < min_accesses:
+        return False
     for i in range(len(acc)):
         for j in range(i + 1, len(acc)):
             (k1, a, w), (k2, b, v) = acc[i], acc[j]
